@@ -121,8 +121,8 @@ func init() {
 			h("cont.H_ValueDisposables", map[string]int{"order_schemes": 1}, map[string]int{"order_schemes": 2}, []string{"scope_closed"}, 10, "disposables that are values: 1..3 instances equal as interface values and 0..2 instances of an unhashable type owned by one scope (plus one by the root scope), optionally all failing: every one closed exactly once, one error per failure, no panic, repeated Close inert"),
 		}},
 	)
-	conc := func(ops int) map[string]int { return map[string]int{"ops": ops, "order_schemes": 1} }
-	const concDesc = "two harness goroutines x `ops` operations each from {resolve in shared scope / child scope / provider, CreateScope on scope / provider, Close of scope / provider, cancel of the scope's context}; constructors and Close methods yield; every context switch at those points and at blocking points is a solver-enumerated choice (G1 granularity); no panic, no deadlock (VM detects all-blocked), documented errors only, scoped identity, close counters, goroutine count"
+	conc := func(ops int) map[string]int { return map[string]int{"ops": ops, "order_schemes": 1, "worlds": 4} }
+	const concDesc = "world shape symbolic {S0(S1,S2) or S0(Scope,S1); the same plus a scoped initializer taking S0, so that scope creation runs user code; S0 consuming a value group whose members are registrations 1 and 2; S0 from a multi-return constructor}; two harness goroutines x `ops` operations each from {resolve in shared scope / child scope / provider, CreateScope on scope / provider, Close of scope / provider, cancel of the scope's context}; constructors and Close methods yield; every context switch at those points and at blocking points is a solver-enumerated choice (G1 granularity); no panic, no deadlock (VM detects all-blocked), documented errors only, scoped identity, close counters, goroutine count"
 	const cbDesc = "a Close (of the resolving scope, its parent, or the provider) lands inside a user callback of an in-flight Get / Resolve / CreateScope - literally: the constructor or initializer calls Close; the operation must return a value or a disposed error, never panic, and nothing may leak"
 	const closedDesc = "scope tree of depth 3 plus a sibling; one closing event (Close of any node, or cancellation of the context given to CreateScope, watcher goroutines run to quiescence); afterwards every operation on every node of the closed subtree must report the disposed error and nodes outside keep working"
 	const relDesc = "N create-(nest)-use-close cycles (close via the scope, via its outer scope, or by cancelling the caller's context; nil / value / cancellable caller contexts; scoped or transient service; optional scoped initializer, optionally failing at a symbolic invocation); after each cycle: goroutine count back to baseline, scope context cancelled, scope and instances unreachable from the provider (VM heap walk through unexported fields; natively weak pointers + GC), from the parent scope and from the caller's context; cells reachable from the provider equal after every cycle"
@@ -178,10 +178,13 @@ func init() {
 		}},
 	)
 	hc := h("cont.H_Conc", conc(1), conc(1), []string{"both_done"}, 10, concDesc)
-	hrace := h("cont.H_Conc", map[string]int{"ops": 1, "order_schemes": 1, "race": 1}, map[string]int{"ops": 2, "order_schemes": 1, "race": 1}, []string{"both_done"}, 0, concDesc+"; with the VM's happens-before (vector clock) race detector on every memory cell and map the container's own code touches; a race is confirmed by Go's race detector on free-running native goroutines")
+	hrace := h("cont.H_Conc", map[string]int{"ops": 1, "order_schemes": 1, "race": 1, "worlds": 4}, map[string]int{"ops": 1, "order_schemes": 1, "race": 1, "worlds": 4}, []string{"both_done"}, 0, concDesc+"; with the VM's happens-before (vector clock) race detector on every memory cell and map the container's own code touches; a race is confirmed by Go's race detector on free-running native goroutines")
+	hrace2 := hrace
+	hrace2.Quick = map[string]int{"ops": 1, "order_schemes": 1, "race": 1, "worlds": 1}
+	hrace2.Thorough = map[string]int{"ops": 2, "order_schemes": 1, "race": 1, "worlds": 1}
 	hcb := h("cont.H_CloseInCallback", map[string]int{"order_schemes": 1}, map[string]int{"order_schemes": 2}, []string{"callback_closed"}, 10, cbDesc)
 	properties = append(properties,
-		propertySpec{ID: "C09", Harnesses: []harnessSpec{hc, hcb, hrace}},
+		propertySpec{ID: "C09", Harnesses: []harnessSpec{hc, hcb, hrace, hrace2}},
 		propertySpec{ID: "C13", Harnesses: []harnessSpec{
 			h("cont.H_Closed", map[string]int{"order_schemes": 2}, map[string]int{"order_schemes": 4}, []string{"close_node", "cancel_scope_ctx", "cancel_child_ctx"}, 20, closedDesc),
 			hcb, hc,
@@ -190,7 +193,11 @@ func init() {
 	for i := range properties {
 		switch properties[i].ID {
 		case "C02", "C10", "C12", "C03", "C18":
-			properties[i].Harnesses = append(properties[i].Harnesses, hc)
+			hx := hc
+			if properties[i].ID != "C10" {
+				hx.Quick = map[string]int{"ops": 1, "order_schemes": 1, "worlds": 1}
+			}
+			properties[i].Harnesses = append(properties[i].Harnesses, hx)
 			if properties[i].ID == "C10" {
 				properties[i].Harnesses = append(properties[i].Harnesses, hcb)
 			}
